@@ -35,7 +35,24 @@ impl Grp {
 }
 
 /// What the element type of a container under test must provide to the harness.
-pub trait Item: Sized + Debug + std::fmt::Display + Hash + PartialEq + Default + Clone + 'static {
+pub trait Item:
+    Sized
+    + Debug
+    + std::fmt::Display
+    + Hash
+    + PartialEq
+    + Default
+    + Clone
+    + std::ops::Add<Self, Output = Self>
+    + for<'a> std::ops::Add<&'a Self, Output = Self>
+    + std::ops::Mul<Self, Output = Self>
+    + std::ops::AddAssign<Self>
+    + std::ops::Neg<Output = Self>
+    + vek::num_traits::MulAdd<Self, Self, Output = Self>
+    + vek::num_traits::Zero
+    + vek::num_traits::One
+    + 'static
+{
     const W: usize;
     /// Read the ids through plain field access (no callback) and validate them (V2).
     fn grp(&self) -> Grp;
@@ -197,6 +214,55 @@ impl Clone for Wide {
         Wide { pad: self.pad, inner: self.inner.clone(), tail: self.tail }
     }
 }
+// arithmetic (operation `VArith`): delegate to the tracked payload, keep this element's own shell
+impl std::ops::Add<Wide> for Wide {
+    type Output = Wide;
+    fn add(self, rhs: Wide) -> Wide {
+        Wide::wrap(self.inner + rhs.inner)
+    }
+}
+impl<'a> std::ops::Add<&'a Wide> for Wide {
+    type Output = Wide;
+    fn add(self, rhs: &'a Wide) -> Wide {
+        Wide::wrap(self.inner + &rhs.inner)
+    }
+}
+impl std::ops::Mul<Wide> for Wide {
+    type Output = Wide;
+    fn mul(self, rhs: Wide) -> Wide {
+        Wide::wrap(self.inner * rhs.inner)
+    }
+}
+impl std::ops::AddAssign<Wide> for Wide {
+    fn add_assign(&mut self, rhs: Wide) {
+        self.inner += rhs.inner;
+    }
+}
+impl std::ops::Neg for Wide {
+    type Output = Wide;
+    fn neg(self) -> Wide {
+        Wide::wrap(-self.inner)
+    }
+}
+impl vek::num_traits::MulAdd<Wide, Wide> for Wide {
+    type Output = Wide;
+    fn mul_add(self, a: Wide, b: Wide) -> Wide {
+        Wide::wrap(vek::num_traits::MulAdd::mul_add(self.inner, a.inner, b.inner))
+    }
+}
+impl vek::num_traits::Zero for Wide {
+    fn zero() -> Wide {
+        Wide::default()
+    }
+    fn is_zero(&self) -> bool {
+        vek::num_traits::Zero::is_zero(&self.inner)
+    }
+}
+impl vek::num_traits::One for Wide {
+    fn one() -> Wide {
+        Wide::default()
+    }
+}
 impl Item for Wide {
     const W: usize = 1;
     #[inline]
@@ -353,6 +419,18 @@ pub trait Kind<X: Item>: 'static {
     fn v_map3<F: FnMut(X, X, X) -> X>(a: Self::V, b: Self::V, c: Self::V, f: F) -> Self::V;
     /// `v.reduce(f)`
     fn v_reduce<F: FnMut(X, X) -> X>(v: Self::V, f: F) -> X;
+    // element-wise arithmetic with an element type that is not Copy (operation `VArith`)
+    fn v_add(a: Self::V, b: Self::V) -> Self::V;
+    fn v_add_arr(a: Self::V, b: Self::Arr) -> Self::V;
+    fn v_mul_tup(a: Self::V, b: Self::Tup) -> Self::V;
+    fn v_add_ref(a: Self::V, b: &Self::V) -> Self::V;
+    fn v_add_assign(a: &mut Self::V, b: Self::V);
+    fn v_neg(a: Self::V) -> Self::V;
+    fn v_mul_add(a: Self::V, b: Self::V, c: Self::V) -> Self::V;
+    fn v_sum_of<I: Iterator<Item = Self::V>>(i: I) -> Self::V;
+    fn v_product_of<I: Iterator<Item = Self::V>>(i: I) -> Self::V;
+    fn v_elem_sum(a: Self::V) -> X;
+    fn v_elem_product(a: Self::V) -> X;
     /// kind / size conversions available for this vector type with no bound on the element type
     /// (`From<other kind>`, `From<(smaller, scalar)>`, truncating `From<larger>`), each composed so
     /// that it ends in this type again
@@ -466,6 +544,17 @@ macro_rules! kind {
             fn v_map2<F: FnMut(X, X) -> X>(a: Self::V, b: Self::V, f: F) -> Self::V { a.map2(b, f) }
             fn v_map3<F: FnMut(X, X, X) -> X>(a: Self::V, b: Self::V, c: Self::V, f: F) -> Self::V { a.map3(b, c, f) }
             fn v_reduce<F: FnMut(X, X) -> X>(v: Self::V, f: F) -> X { v.reduce(f) }
+            fn v_add(a: Self::V, b: Self::V) -> Self::V { a + b }
+            fn v_add_arr(a: Self::V, b: Self::Arr) -> Self::V { a + b }
+            fn v_mul_tup(a: Self::V, b: Self::Tup) -> Self::V { a * b }
+            fn v_add_ref(a: Self::V, b: &Self::V) -> Self::V { a + b }
+            fn v_add_assign(a: &mut Self::V, b: Self::V) { *a += b; }
+            fn v_neg(a: Self::V) -> Self::V { -a }
+            fn v_mul_add(a: Self::V, b: Self::V, c: Self::V) -> Self::V { a.mul_add(b, c) }
+            fn v_sum_of<I: Iterator<Item = Self::V>>(i: I) -> Self::V { i.sum() }
+            fn v_product_of<I: Iterator<Item = Self::V>>(i: I) -> Self::V { i.product() }
+            fn v_elem_sum(a: Self::V) -> X { a.sum() }
+            fn v_elem_product(a: Self::V) -> X { a.product() }
             fn kc_specs() -> &'static [KcSpec] { crate::kindconv::$K::SPECS }
             fn v_kind_conv(v: Self::V, variant: usize, extras: Vec<X>) -> Self::V { crate::kindconv::$K::conv::<X>(v, variant, extras) }
             fn from_slice_u32(s: &[u32]) -> Vec<u32> {
